@@ -86,6 +86,28 @@ void sol_op(const void * p, int t, std::vector<double> & out)
     out.push_back(double(static_cast<int>(res.status)));
   }
   {
+    // residuals whose Gauss-Newton steps overshoot (s atan(k x), Rosenbrock): trial steps are rejected and the trust region
+    // shrinks, so the back-off path of the strategy runs while other threads solve their own problems with their own options
+    Eigen::Vector2d x(3.0 + t, -2.0);
+    const auto f = [](const Eigen::Vector2d & y) -> Eigen::Vector2d {
+      return Eigen::Vector2d(std::atan(4 * y(0)), std::atan(2 * y(1)) + 0.1 * y(0));
+    };
+    MinimizeOptions opts;
+    opts.max_iter = 30;
+    const auto res = minimize(f, wrt(x), opts);
+    put(out, x);
+    out.push_back(double(res.iter));
+    out.push_back(double(static_cast<int>(res.status)));
+    Eigen::Vector2d z(-1.2 - 0.3 * t, 1.0);
+    const auto rosen = [](const Eigen::Vector2d & y) -> Eigen::Vector2d { return Eigen::Vector2d(10 * (y(1) - y(0) * y(0)), 1 - y(0)); };
+    MinimizeOptions opts2;
+    opts2.max_iter = 40;
+    const auto res2 = minimize(rosen, wrt(z), opts2);
+    put(out, z);
+    out.push_back(double(res2.iter));
+    out.push_back(double(static_cast<int>(res2.status)));
+  }
+  {
     auto c = fit_spline_cubic(s->ts, s->gs);
     Eigen::Vector3d vel;
     put(out, c(1.7 + 0.4 * t, vel).coeffs());
